@@ -93,7 +93,7 @@ def run_wrapper(case, env):
 @st.composite
 def gen_wrapper(draw):
     target = draw(st.sampled_from(["counted", "lockable"]))
-    alphabet = ["r", "w", "u"] * 4 + ["wt", "wx", "q", "p", "b"]
+    alphabet = ["r", "w", "u"] * 4 + ["wt", "wx", "q", "p", "b", "uf", "uf"]
     if target == "lockable":
         alphabet += ["L", "D"]
     ops = draw(st.lists(st.sampled_from(alphabet), min_size=3, max_size=12))
